@@ -13,7 +13,10 @@ RULE = ("(1) /proc/stat records printed by the spec's kernel printer (read throu
         "plus a malformed byte stream. (2) scripts of 2-7 calls of cpu_times/cpu_percent/cpu_times_percent (percpu or not; interval None, 0, >0 "
         "with the kernel moving during the sleep, <0) issued by 1-3 real threads in a scripted order, every script after a real re-import of psutil "
         "(40% by the script's main thread over an earlier snapshot = import-time priming; the rest by a parked foreign thread, so that no script thread has a sample), over successive snapshots whose "
-        "per-field deltas are drawn from {0, 1 tick, <1 s, >=1 s, backwards, huge}; (3) scripts of Process.cpu_percent calls on two "
+        "per-field deltas are drawn from {0, 1 tick, <1 s, >=1 s, backwards, huge}; (2b) object-lifetime histories with real threads: thread A samples and exits while its "
+        "threading.Thread object is kept, dropped before the successor starts, dropped (+gc.collect()) between two calls of the successor, or never; thread B "
+        "starts after A (and is handed A's ident) or before A exits; optional third thread and main-thread calls; B's first samples in other series / by "
+        "blocking calls or in A's own series (where the ident-keyed code before d2712e2 inherited A's sample); (3) scripts of Process.cpu_percent calls on two "
         "Process objects of one pid with scripted monotonic clock, cpu_count() and all five counters of the process tuple: utime/stime and, "
         "independently, cutime/cstime/delayacct_blkio_ticks (mixed, moving alone, or standing still). Non-trivial = at least one counter "
         "or one call; distinct = distinct canonical case hash.")
@@ -27,7 +30,8 @@ ASSUMPTIONS = ["IEEE double arithmetic and round(x, 1) are not modelled: exact r
                "0.05 (one rounding step) + 1e-9 + a float-noise term 200*2^-46*max_counter/granularity",
                "a psutil call reads /proc/stat atomically with respect to kernel updates and to other threads' calls (calls are run one "
                "at a time; the per-thread maps are only touched by single dict get/set operations)",
-               "thread idents are distinct (all threads of a script stay alive); ident reuse after a thread exits is not modelled",
+               "in lifetime histories the idents written into the Coq terms are predictions (a new thread is handed the most recently freed ident); they only "
+               "matter to the legacy ident-keyed answer kept for diagnosis, never to the verdict",
                "re-executing psutil/_pslinux.py and psutil/__init__.py with importlib.reload is taken to behave like the first import",
                "the kernel keeps the number of counters per line and the set of online CPUs constant within a script (theorem hypotheses)"]
 EXHAUSTIVE = {"thorough": "all 4 field counts 7-10 x all (function, percpu, interval form) = 2*2*4 call shapes x {first call, second call} "
@@ -199,6 +203,114 @@ def gen_script(rng, flavour, big=False):
     return {"kind": "script", "cls": cls, "clk": clk, "nf": nf, "ids": ids, "gran": g, "snaps": snaps, "events": events, "imp": imp}
 
 
+SERIES = [("p", False), ("p", True), ("tp", False), ("tp", True)]
+
+
+def gen_life(rng, inherit=None):
+    """Object-lifetime histories: thread A samples and exits (its Thread object kept, dropped before B starts, dropped between two calls
+    of B, or never); thread B is started afterwards (it is given A's ident) or before A exits (it is not); optionally a third thread
+    and calls of the main thread in between.  inherit=False: B's first sample in every series A used is a blocking call or B uses other
+    series (nothing to inherit); True: B's first non-blocking call is in a series A sampled (finding class); None: free."""
+    clk = rng.choice(CLKS)
+    nf = rng.choice([7, 8, 9, 10, 10])
+    ids = _ids(rng, rng.choice([1, 1, 2]))
+    snaps = [{"total": [rng.randint(0, 10 ** 5) for _ in range(nf)], "cpus": [[rng.randint(0, 10 ** 5) for _ in range(nf)] for _ in ids]}]
+    anchor = rng.choice([0, 2, 3])
+    imp_th = rng.choice([0, 99])
+    alive0 = [0] + ([99] if imp_th == 99 else [])
+    idents = {"0": 100, "99": 199}
+    free, fresh = [], [200]
+    ops = []
+    own = {}          # (th, fn, percpu) -> has a sample
+    left = {}         # (ident, fn, percpu) -> thread that left the latest sample there
+    for sr in SERIES:
+        left[(idents[str(imp_th)],) + sr] = imp_th
+    inherits = [False]
+
+    def start(th):
+        if free:
+            i = free.pop()
+        else:
+            i = fresh[0]
+            fresh[0] += 1
+        idents[str(th)] = i
+        ops.append({"op": "start", "th": th})
+
+    def exit_(th):
+        ops.append({"op": "exit", "th": th})
+        free.append(idents[str(th)])
+
+    def call(th, series=None, iv=None, fn_t=False):
+        fn, percpu = series if series else rng.choice(SERIES)
+        iv = iv or rng.choice(["none", "none", "zero", "pos", "neg"] if rng.random() < 0.3 else ["none", "none", "zero"])
+        if fn_t:
+            fn, iv = "t", "none"
+        mode = "safe" if rng.random() < 0.9 else "same"
+        snaps.append(_evolve(rng, snaps[-1], clk, 1, mode, nf, anchor, rng.random() < 0.3))
+        k1 = k2 = len(snaps) - 1
+        if iv == "pos":
+            snaps.append(_evolve(rng, snaps[-1], clk, 1, "safe", nf, anchor, False))
+            k2 = len(snaps) - 1
+        if fn != "t" and iv != "neg":
+            key = (idents[str(th)], fn, percpu)
+            if iv != "pos" and not own.get((th, fn, percpu)) and left.get(key, th) != th:
+                inherits[0] = True
+            own[(th, fn, percpu)] = True
+            left[key] = th
+        ops.append({"op": "call", "th": th, "fn": fn, "percpu": percpu, "iv": iv, "k1": k1, "k2": k2, "zero": rng.choice([0, 0.0])})
+
+    def maybe_main():
+        if rng.random() < 0.3:
+            call(0, fn_t=rng.random() < 0.3)
+
+    collect_when = rng.choice(["before-start", "between", "between", "between", "never", "after"])
+    overlap = rng.random() < 0.15            # B starts while A is still running: no hand-over of the ident
+    a_series = rng.sample(SERIES, rng.choice([1, 1, 2]))
+    start(1)
+    for sr in a_series:
+        call(1, sr, iv=rng.choice(["none", "zero", "pos"]))
+    maybe_main()
+    if overlap:
+        start(2)
+    exit_(1)
+    if collect_when == "before-start":
+        ops.append({"op": "collect", "th": 1})
+    if not overlap:
+        start(2)
+    other = [sr for sr in SERIES if sr not in a_series]
+    want_inherit = inherit if inherit is not None else rng.random() < 0.3
+    # B's first samples
+    if want_inherit and not overlap:
+        call(2, rng.choice(a_series), iv=rng.choice(["none", "zero"]))
+    else:
+        if other and rng.random() < 0.6:
+            call(2, rng.choice(other), iv=rng.choice(["none", "zero"]))
+        for sr in a_series:
+            if rng.random() < 0.7:
+                call(2, sr, iv="pos")          # blocking: takes B's own sample without looking at what lies under the ident
+    b_series = [sr for sr in SERIES if own.get((2,) + sr)]
+    maybe_main()
+    if collect_when == "between":
+        ops.append({"op": "collect", "th": 1})
+    for _ in range(rng.randint(1, 3)):
+        call(2, rng.choice(b_series) if b_series and rng.random() < 0.85 else None, iv=rng.choice(["none", "none", "zero"]))
+        b_series = [sr for sr in SERIES if own.get((2,) + sr)]
+        if rng.random() < 0.2:
+            maybe_main()
+    if rng.random() < 0.3:                    # a third thread after B is gone too
+        exit_(2)
+        if rng.random() < 0.5:
+            ops.append({"op": "collect", "th": 2})
+        start(3)
+        call(3, iv="pos")
+        call(3, iv=rng.choice(["none", "zero"]))
+    if collect_when == "after":
+        ops.append({"op": "collect", "th": 1})
+    cls = "life-%s%s%s" % ("overlap" if overlap else "reuse", "-inherit" if inherits[0] else "", "-collect-" + collect_when)
+    return {"kind": "life", "cls": cls, "clk": clk, "nf": nf, "ids": ids, "gran": 1, "snaps": snaps, "ops": ops,
+            "imp": {"th": imp_th, "snap": 0}, "alive0": alive0, "idents": idents}
+
+
 def gen_script_raw(rng):
     clk = 100
     a = pstat([10, 0, 5, 100, 1, 0, 0, 0, 0, 0], [[0, [10, 0, 5, 100, 1, 0, 0, 0, 0, 0]], [1, [1, 2, 3, 4, 5, 6, 7, 8, 9, 10]]], [["ctxt", [4]]])
@@ -276,15 +388,18 @@ def gen_cases(rng, tier):
     cases = []
     if tier != "search":
         cases += _exhaustive_shapes() if tier == "thorough" else _exhaustive_shapes()[::7]
-    cases += [gen_times(rng) for _ in range(120 * n)]
-    cases += [gen_times_raw(rng) for _ in range(80 * n)]
-    for flavour, k in (("p", 110), ("tp-safe", 110), ("mixed", 90), ("mixed-any", 40), ("tp-sub", 40)):
+    cases += [gen_times(rng) for _ in range(80 * n)]
+    cases += [gen_times_raw(rng) for _ in range(60 * n)]
+    for flavour, k in (("p", 90), ("tp-safe", 90), ("mixed", 70), ("mixed-any", 30), ("tp-sub", 30)):
         cases += [gen_script(rng, flavour, big) for _ in range(k * n)]
     cases += [gen_script_raw(rng) for _ in range(40 * n)]
-    cases += [gen_proc(rng) for _ in range(80 * n)]
-    cases += [gen_proc(rng, decoy="only") for _ in range(30 * n)]
-    cases += [gen_proc(rng, decoy="still") for _ in range(15 * n)]
-    cases += [gen_proc(rng, True) for _ in range(25 * n)]
+    cases += [gen_life(rng, inherit=False) for _ in range(30 * n)]
+    cases += [gen_life(rng, inherit=True) for _ in range(10 * n)]
+    cases += [gen_life(rng) for _ in range(10 * n)]
+    cases += [gen_proc(rng) for _ in range(60 * n)]
+    cases += [gen_proc(rng, decoy="only") for _ in range(25 * n)]
+    cases += [gen_proc(rng, decoy="still") for _ in range(10 * n)]
+    cases += [gen_proc(rng, True) for _ in range(20 * n)]
     return cases
 
 
@@ -316,6 +431,25 @@ def coq_term(case):
         evs = ["(mk_ev %d %s %s %s s%d s%d)" % (e["tid"], FN[e["fn"]], G.bo(e["percpu"]), IV[e["iv"]], e["k1"], e["k2"]) for e in case["events"]]
         imp = "(Some (%d, s%d))" % _imp_of(case)
         return "%srun_script %s %s %s %s" % (lets, clk, G.nat(case["nf"]), imp, G.lst(evs))
+    if k == "life":
+        lets = "".join("let s%d := %s in " % (i, _stat(sn["total"], list(zip(case["ids"], sn["cpus"])), SCRIPT_TAIL))
+                       for i, sn in enumerate(case["snaps"]))
+        idents = case["idents"]
+        levs = []
+        for o in case["ops"]:
+            if o["op"] == "start":
+                levs.append("LStart %d %d" % (o["th"], idents[str(o["th"])]))
+            elif o["op"] == "exit":
+                levs.append("LExit %d" % o["th"])
+            elif o["op"] == "collect":
+                levs.append("LCollect %d" % o["th"])
+            else:
+                levs.append("LCall %d (mk_ev %d %s %s %s s%d s%d)" % (o["th"], idents[str(o["th"])], FN[o["fn"]], G.bo(o["percpu"]),
+                                                                     IV[o["iv"]], o["k1"], o["k2"]))
+        imp = case["imp"]
+        al0 = ["(%d, %d)" % (t, idents[str(t)]) for t in case["alive0"]]
+        return "%srun_life %s %s (mk_limp %d %d s%d) %s %s" % (lets, clk, G.nat(case["nf"]), idents[str(imp["th"])], imp["th"], imp["snap"],
+                                                             G.lst(al0), G.lst(levs))
     if k == "script_raw":
         evs = ["(Build_event %d %s %s %s %s %s)" % (e["tid"], FN[e["fn"]], G.bo(e["percpu"]), IV[e["iv"]],
                                                     G.by(bytes.fromhex(e["k1"])), G.by(bytes.fromhex(e["k2"]))) for e in case["events"]]
@@ -344,6 +478,13 @@ def coq_struct(case, raw):
             # hypotheses of C07_script_all_threads hold, so model = spec is a theorem (both are Qred-normal)
             raise RuntimeError("model and spec differ on a script satisfying script_ok: %r" % (case,))
         return {"printed": raw[0], "model": raw[1], "spec": raw[2], "totals": raw[3], "imp_printed": raw[4], "hyp_ok": raw[5]}
+    if k == "life":
+        if raw[5] is not True:
+            raise RuntimeError("generated lifetime history breaks the OS rules (life_wf): %r" % (case,))
+        if raw[7] is True and raw[2] is not None and raw[1] != raw[2]:
+            raise RuntimeError("model and spec differ on a history satisfying the hypotheses of C07_script_with_thread_lifetimes: %r" % (case,))
+        return {"printed": raw[0], "model": raw[1], "spec": raw[2], "totals": raw[3], "imp_printed": raw[4], "hyp_ok": raw[7],
+                "legacy_inherit_class": raw[6] is False, "legacy_ident_keyed_answer": raw[8]}
     if k == "script_raw":
         return {"model": raw[0], "spec": None}
     if k == "proc":
@@ -359,10 +500,21 @@ def _has_oom(x):
     return False
 
 
+def _within(a, b, tol):
+    """canonical result trees equal up to tol on every rational leaf [num, den]"""
+    if isinstance(a, dict) and isinstance(b, dict):
+        return a.get("t") == b.get("t") and _within(a.get("a", []), b.get("a", []), tol)
+    if isinstance(a, list) and isinstance(b, list):
+        if len(a) == 2 and len(b) == 2 and all(isinstance(x, int) and not isinstance(x, bool) for x in a + b) and a[1] > 0 and b[1] > 0:
+            return abs(Fraction(a[0], a[1]) - Fraction(b[0], b[1])) <= tol
+        return len(a) == len(b) and all(_within(x, y, tol) for x, y in zip(a, b))
+    return a == b
+
+
 def finding_key(case, coq):
     k = case["kind"]
-    if k == "script" and coq.get("spec") is not None:
-        for e, tots in zip(case["events"], coq["totals"]):
+    if k in ("script", "life") and coq.get("spec") is not None:
+        for e, tots in zip(case["events"] if k == "script" else _life_calls(case), coq["totals"]):
             if e["fn"] == "tp" and any(0 < t < case["clk"] for t in tots):
                 return KEY_SUBSEC
     return None
@@ -373,6 +525,13 @@ def judge(case, coq, impl):
     if _has_oom(coq.get("model")):
         return Verdict("skip", "model: OutOfModel")
     v = default_judge(None, case, coq, impl)
+    if v.kind == "violation" and impl == coq.get("model") and _within(coq["model"], coq["spec"], Fraction(1, 20) + Fraction(1, 10 ** 9)):
+        # the demanded and the modelled values differ by less than one rounding step of round(x, 1): the returned float is
+        # compatible with both, nothing can be concluded from this input
+        return Verdict("ok", "spec and model indistinguishable after rounding")
+    if v.kind == "violation" and case["kind"] == "life" and impl == coq.get("legacy_ident_keyed_answer"):
+        v.detail = ("thread lifetimes: the answers are those of samples keyed by thread IDENT (a thread handed a dead thread's ident "
+                    "inherits its sample) -- finding thread-ident-reuse-inherits-sample, fixed by d2712e2, is back")
     if v.kind == "violation":
         k = finding_key(case, coq)
         if k == KEY_SUBSEC:
@@ -583,7 +742,7 @@ def impl_run(case, coq, env):
                 # (field names are checked in _row; the number of fields by the comparison with the model/spec row)
                 out.append(_snap_outcome(r, cands, rel) if isinstance(r, dict) and r.get("t") == "Val" else r)
             return out
-        if k in ("script", "script_raw"):
+        if k in ("script", "script_raw", "life"):
             return _run_script(case, coq, env, time)
         if k == "proc":
             return _run_proc(case, coq, env, time)
@@ -594,7 +753,7 @@ def impl_run(case, coq, env):
 
 
 def _tolerance(case):
-    if case["kind"] == "script":
+    if case["kind"] in ("script", "life"):
         m = max(max(s["total"] + sum(s["cpus"], [0])) for s in case["snaps"])   # snaps[0] = import-time state included
         noise = Fraction(200 * m, 2 ** 46 * case["gran"])
     else:
@@ -612,17 +771,33 @@ def _imp_of(case):
     return IMPORTER_ELSEWHERE, case["events"][0]["k1"]
 
 
+def _life_calls(case):
+    return [o for o in case["ops"] if o["op"] == "call"]
+
+
 def _run_script(case, coq, env, time):
+    """script / script_raw: a list of calls (threads created on first use, all alive to the end).
+    life: explicit thread lifetimes -- 'start' (new real thread), 'exit' (the thread returns and is joined while we keep its
+    threading.Thread object), 'collect' (the last reference to that object is dropped and gc.collect() is run), 'call'."""
+    import gc
+    import threading
     k = case["kind"]
     tol = _tolerance(case)
     rel = lambda c: Fraction(1, 2 ** 48) * max(1, abs(c))  # noqa: E731
-    threads = {}
+    threads = {}          # logical thread -> _Thread (holds the threading.Thread object)
+    observed = {0: threading.get_ident()}
     pending = {"k2": None, "slept": 0}
     real_sleep = time.sleep
-    imp_tid, imp_what = _imp_of(case)
-    content = unB(coq["imp_printed"]) if k == "script" else bytes.fromhex(imp_what)
+    if k == "life":
+        imp_tid = case["imp"]["th"]
+        ops = case["ops"]
+    else:
+        imp_tid, imp_what = _imp_of(case)
+        ops = [dict(e, op="call", th=e["tid"]) for e in case["events"]]
+    content = bytes.fromhex(imp_what) if k == "script_raw" else unB(coq["imp_printed"])
     if imp_tid != 0:
-        threads[imp_tid] = _Thread()       # stays alive to the end of the script: its ident cannot be recycled
+        threads[imp_tid] = _Thread()       # parked importer: stays alive to the end, its ident cannot be recycled
+        observed[imp_tid] = threads[imp_tid].call(threading.get_ident)
     try:
         fr = _Fresh(env, case["clk"], content, importer=threads.get(imp_tid))
     except BaseException:
@@ -637,13 +812,27 @@ def _run_script(case, coq, env, time):
             _write_stat(root, pending["k2"])
     time.sleep = fake_sleep
     out = []
+    idx = -1
     try:
-        for idx, e in enumerate(case["events"]):
-            if k == "script":
+        for e in ops:
+            if e["op"] == "start":
+                threads[e["th"]] = _Thread()
+                observed[e["th"]] = threads[e["th"]].call(threading.get_ident)
+                continue
+            if e["op"] == "exit":
+                threads[e["th"]].stop()           # the thread function returns; joined; the Thread object is still referenced
+                real_sleep(0.003)                 # let the OS thread finish dying so that its ident is free
+                continue
+            if e["op"] == "collect":
+                del threads[e["th"]]              # last reference to the (finished) thread's Thread object
+                gc.collect()
+                continue
+            idx += 1
+            if k == "script_raw":
+                k1, k2 = bytes.fromhex(e["k1"]), bytes.fromhex(e["k2"])
+            else:
                 k1 = unB(coq["printed"][idx][0])
                 k2 = unB(coq["printed"][idx][1]) if e["iv"] == "pos" else None
-            else:
-                k1, k2 = bytes.fromhex(e["k1"]), bytes.fromhex(e["k2"])
             _write_stat(root, k1)
             pending["k2"], pending["slept"] = (k2 if e["iv"] == "pos" else None), 0
             iv = {"none": None, "zero": e.get("zero", 0), "pos": 0.25, "neg": -1}[e["iv"]]
@@ -673,12 +862,13 @@ def _run_script(case, coq, env, time):
                 if fn == "t":
                     return _shape_outcome(lambda: f(percpu=percpu), conv)
                 return _shape_outcome(lambda: f(interval=iv, percpu=percpu), conv)
-            if e["tid"] == 0:
+            if e["th"] == 0:
                 r = call()
             else:
-                if e["tid"] not in threads:
-                    threads[e["tid"]] = _Thread()
-                r = threads[e["tid"]].call(call)
+                if e["th"] not in threads:
+                    threads[e["th"]] = _Thread()
+                    observed[e["th"]] = threads[e["th"]].call(threading.get_ident)
+                r = threads[e["th"]].call(call)
             is_val = isinstance(r, dict) and r.get("t") == "Val"
             want_sleep = 1 if (e["iv"] == "pos" and e["fn"] != "t") else 0
             if (pending["slept"] != want_sleep) if is_val else (pending["slept"] > want_sleep):
@@ -759,12 +949,15 @@ def _run_proc(case, coq, env, time):
 
 
 MANIFEST = {
-    "text": "Theorems (Coq, 24, all closed under the global context): (parse) for every /proc/stat the kernel can print (any number of CPUs, >= 7 "
+    "text": "Theorems (Coq, 29, all closed under the global context): (parse) for every /proc/stat the kernel can print (any number of CPUs, >= 7 "
             "decimal counters per line) the model of cpu_times()/cpu_times(percpu=True) returns every named counter / CLOCK_TICKS per CPU in kernel "
             "order; (arithmetic) cpu_percent between two samples = 100*busy/total over clipped deltas (busy = user+nice+system+irq+softirq+steal, "
             "guest not double counted, idle/iowait not busy), in [0,100], a counter that went backwards contributes zero; cpu_times_percent values "
             "are in [0,100] always and the non-guest shares add up to exactly 100 once one CPU-second elapsed (refuted with a witness below one "
-            "second: known finding); (script theorem C07_script_all_threads) starting from the state the import leaves (the importing thread primed "
+            "second: known finding); (lifetimes) thread exits, ident hand-overs and threading.Thread "
+            "object collections leave the baseline of a running thread untouched (C07_own_baseline_kept) and the script theorem holds thread by thread over "
+            "lifetime histories (C07_script_with_thread_lifetimes), at full strength since /repo d2712e2 (thread-local storage); the ident-keyed dicts "
+            "of the code before are kept as a legacy variant with its invariant C07_own_baseline_kept and the refutation C07_ident_reuse_refuted; (script theorem C07_script_all_threads) starting from the state the import leaves (the importing thread primed "
             "with the import-time sample in all four series), for every sequence of cpu_times / cpu_percent / cpu_times_percent calls by any number "
             "of threads (percpu or not, interval None / 0 / > 0 with the kernel moving during the sleep / < 0 -> ValueError) the results are those "
             "of a history-based specification: each thread against its own previous sample of the same series, the importing thread's first call "
